@@ -41,6 +41,8 @@ const char *shim_file_put(const uint8_t *data, size_t len);
 /* rc of aws_readkeys; on success copies of the strings (malloc'd, caller frees) */
 int shim_aws_readkeys(const char *path, char **id, char **secret);
 int shim_readpass_file(const char *path, char **pass);
+void shim_fclose_fail_next(int n); /* the n-th fclose() from now on closes the stream and then reports EOF/EIO (0: none; no-op in the fuzz binaries) */
+int shim_fclose_failed(void);
 
 /* Run the GETOPT loop of compiled-in table `table` (0,1) over argv[0..argc] (argv[argc]
  * must be NULL).  *nopts = options returned, *nargs = with argument, *ndefault = default
